@@ -135,10 +135,10 @@ def fallback_search(prop, reason, repo):
         return None
     for fam in fams:
         try:
-            r = subprocess.run([exe, "find", fam, "undecided"], capture_output=True, text=True, timeout=900)
+            r = subprocess.run([exe, "find", fam, "undecided"] + _skip_args(prop), capture_output=True, text=True, timeout=900)
         except subprocess.TimeoutExpired:
             continue
-        lines = r.stdout.strip().split("\n")
+        lines = [l for l in r.stdout.strip().split("\n") if not l.startswith("KNOWN ")]
         if r.returncode == 1 and lines and lines[0].startswith("FOUND "):
             d = os.path.join(VERIF, "replays", prop)
             os.makedirs(d, exist_ok=True)
@@ -170,11 +170,11 @@ def standin_search(prop, repo):
     for b in fams:
         fam = b["family"]
         try:
-            r = subprocess.run([exe, "find", fam, "standin"], capture_output=True, text=True, timeout=900)
+            r = subprocess.run([exe, "find", fam, "standin"] + _skip_args(prop), capture_output=True, text=True, timeout=900)
         except subprocess.TimeoutExpired:
             results.append(dict(b, status="timeout"))
             continue
-        lines = r.stdout.strip().split("\n")
+        lines = [l for l in r.stdout.strip().split("\n") if not l.startswith("KNOWN ")]
         if r.returncode == 1 and lines and lines[0].startswith("FOUND "):
             d = os.path.join(VERIF, "replays", prop)
             os.makedirs(d, exist_ok=True)
@@ -193,3 +193,14 @@ def standin_search(prop, repo):
         else:
             results.append(dict(b, status="stand-in did not run: rc=%s %s" % (r.returncode, (r.stderr or r.stdout)[-200:])))
     return results, found
+
+
+def _skip_args(prop):
+    """witness-message fragments of the open known findings of this property: the witness search must look past them"""
+    from . import registry
+    out = []
+    for f in registry.load_findings():
+        if f.get("property") == prop:
+            for frag in f.get("witness_messages", []):
+                out += ["--skip", frag]
+    return out
